@@ -44,4 +44,9 @@ def Hist.replayLoop {α : Type} (feed : Nat → List α) : List α → Nat → H
 def Hist.replayTo {α : Type} (h : Hist α) (feed : Nat → List α) : List α × Hist α :=
   Hist.replayLoop feed h.buf 0 h
 
+/-- `h.replayTo(h)`: the observer replayed to is the history observer itself — on receiving the `i`-th replayed
+    event it observes exactly that event -/
+def Hist.replayToSelf {α : Type} (h : Hist α) : Hist α :=
+  (h.replayTo fun i => h.buf[i]?.toList).2
+
 end Twisted.Log.Buffer
